@@ -4,13 +4,19 @@
    routing function sh (any shard count, modulo or xxhash: the model only uses sh as a function key -> index;
    the single lockers are sh constant).  This file contains statements closed by `exact` only. *)
 From Coq Require Import List Bool Arith ZArith Sorting.Sorted.
-Require Import Progress KeyLTS KeyAgree KeyConv C02_Model C02_Table C02_Inv C02_Safety C02_Progress C02_Check C02_Sound.
+Require Import Progress KeyLTS KeyAgree KeyConv C02_Model C02_Table C02_Inv C02_Safety C02_Progress C02_Case C02_Sound C02_Complete C02_Check.
 Import ListNotations.
 Local Open Scope nat_scope.
 
 (* ---- the tie: whatever the driver accepts satisfies the monitor ---- *)
 Theorem c02_case_sound : forall c, case_accept c = true -> case_holds c = true.
 Proof. exact case_sound. Qed.
+
+(* THE MODEL MATCH IMPLIES THE WHOLE MONITOR: every clause of case_holds (hook counts and entry count, exclusion, returned is
+   live, independence, progress of ordered programs, nothing blocked) follows from the replayed run; `drained` only says that
+   the action list releases everybody (completion), which no run of a model can promise on the harness's behalf *)
+Theorem c02_model_matches_holds : forall c, model_matches c = true -> drained c = true -> case_holds c = true.
+Proof. exact model_matches_holds. Qed.
 
 (* the model match ALONE implies two clauses of the monitor on every round: whoever has returned is a live caller, and
    among returned callers a key of a writer is a key of nobody else (all keys of a returned multi-key caller count) *)
@@ -134,6 +140,7 @@ Theorem keylock_demo : exists s, frun demo_sh finit
 Proof. exact demo_full. Qed.
 
 Print Assumptions c02_case_sound.
+Print Assumptions c02_model_matches_holds.
 Print Assumptions c02_model_matches_safety.
 Print Assumptions keylock_invariant.
 Print Assumptions keylock_same_object.
